@@ -58,6 +58,13 @@ def rule_operand_sign(ck, m, rid, only=None):
     return len(apps)
 
 
+def _poly_eq(affine, expr, p) -> bool:
+    try:
+        return affine.poly(expr) == p
+    except affine.NotPoly:
+        return False
+
+
 def run(ck, m):
     tree = m.tree(CS)
     fold = Folder(tree)
@@ -138,70 +145,142 @@ def run(ck, m):
     # ---- R4 ----------------------------------------------------------------------------
     renderers = [(rel, c) for rel, c in m.subclasses("BaseImage") if any(isinstance(s, ast.FunctionDef) and s.name == "_render_image" and not any(norm(d) == "abstractmethod" for d in s.decorator_list) for s in c.body)]
     ck.expect(sorted(c.name for _, c in renderers) == ["BlockImage", "ITerm2Image", "KittyImage"], f"concrete renderers found: {[c.name for _, c in renderers]}; a new render style needs its own line-structure rules")
+    # -- kitty / iterm2: invariants of the symbolic output shape (tiv.emit), per return and per case of the free conditions
+    from tiv import emit, affine
+
+    def shape_cases(fn, label):
+        rs = find_stmts("$$rw, $$rh = self.rendered_size", body_walk(fn))
+        ck.need(len(rs) == 1, f"{label}: `<w>, <h> = self.rendered_size` not found")
+        rw, rh = norm(rs[0][1]["rw"]), norm(rs[0][1]["rh"])
+        out = []
+        sums = emit.summaries(fn, env)
+        ck.expect(len(sums) >= 2, f"{label}: expected >= 2 string-returning paths, found {len(sums)}")
+        seen_nl = set()
+        for ret, facts, term in sums:
+            cs = emit.cases(term, facts, limit=7)
+            ck.expect(cs is not None, f"{label}: too many free conditions in the output shape of the return at line {m.loc(ret)}")
+            for a_ in emit.atoms(term):
+                if emit.is_nl(a_) and a_.src is not None:
+                    seen_nl.add(id(a_.src))
+            for f, t in cs or []:
+                out.append((ret, f, t))
+        # every newline-bearing literal of the function must be accounted for by a summary
+        for n in body_walk(fn):
+            if isinstance(n, ast.Constant) and isinstance(n.value, str) and "\n" in n.value and not isinstance(n._p, ast.Expr):
+                ck.expect(id(n) in seen_nl, f"{label}: the newline-bearing literal at line {m.loc(n)} is not part of a recognised output shape")
+        return rw, rh, out
+
+    def is_fmt(a_, tmpl, arg=None):
+        return isinstance(a_, emit.Fmt) and a_.tmpl == tmpl and (arg is None or norm(a_.args) == arg)
+
+    def hand_made(a_):
+        return isinstance(a_, emit.Lit) and "\x1b" in a_.text and not getattr(a_, "name", None)
+
+    def show_case(f):
+        return ", ".join(f"{k}={v}" for k, v in sorted(f.items()))
+
+    def common_line_rules(label, ret, f, t, rh):
+        c = emit.count(t, emit.is_nl)
+        ck.expect(c is not None, f"{label}: the number of newlines in the output shape `{repr(t)[:160]}` is not determined")
+        if c is not None:
+            ck.ob("R4", ret, c == affine.poly(ast.parse(f"{rh} - 1", mode="eval").body),
+                  f"{label} [{show_case(f)}]: the output has `{affine.show(c)}` newlines; a render of rendered_height lines must have exactly {rh} - 1 (shape: {repr(t)[:200]})",
+                  stmt=f"{label}: newline count == {rh} - 1 [{show_case(f)}] @return#{ordinal[id(ret)]}")
+
+    ordinal = {}
     # -- kitty
     kr = m.get(KT, "KittyImage._render_image")
-    rs = find_stmts("$$rw, $$rh = self.rendered_size", body_walk(kr))
-    ck.need(len(rs) == 1, "kitty: r_width, r_height = self.rendered_size not found")
-    rw, rh = norm(rs[0][1]["rw"]), norm(rs[0][1]["rh"])
-    fnl = find_stmts("$$fn = $$f + '\\n'", body_walk(kr))
-    ck.expect(len(fnl) == 1, "kitty: `<fill_newline> = <fill> + newline` not recognised")
-    FN, F = (norm(fnl[0][1]["fn"]), norm(fnl[0][1]["f"])) if fnl else ("fill_newline", "fill")
-    fl = find_stmts(f"{F} = $e", body_walk(kr))
-    okf = len(fl) == 1 and match_expr(f"('' if mix else ERASE_CHARS % {rw}) + CURSOR_FORWARD % {rw}", fl[0][1]["e"]) is not None
-    ck.ob("R4", fl[0][0] if fl else kr, okf,
-          f"kitty places images with C=1 (cursor does not move), so each line must end with an explicit CURSOR_FORWARD % {rw} (after an optional ERASE_CHARS % {rw}); found `{norm(fl[0][1]['e']) if fl else None}`", stmt="kitty: fill = [ECH w] CUF w; fill_newline = fill + newline")
-    lines_if = next((s for s in kr.body if isinstance(s, ast.If) and norm(s.test) == "render_method == LINES"), None)
-    ck.need(lines_if is not None, "kitty: LINES branch not found")
-    lps = [n for n in walk_local(lines_if) if isinstance(n, ast.For) and any(norm(s) == f"buffer.write({FN})" for s in n.body)]
-    ck.expect(len(lps) == 1, "kitty LINES: the loop writing the newline-bearing fragment not recognised")
-    lp = lps[0] if lps else None
-    okl = lp is not None and match_expr(f"range({rh} - 1)", lp.iter) is not None
-    ck.ob("R4", lp or lines_if, okl, f"kitty LINES: the newline-bearing fragment must be written exactly {rh} - 1 times (`for _ in range({rh} - 1)`); found `{norm(lp.iter) if lp else None}`", stmt="kitty LINES: r_height - 1 newlines")
-    other_nl = [s for s in walk_local(lines_if) if isinstance(s, ast.Expr) and norm(s) == f"buffer.write({FN})" and (lp is None or s not in lp.body)]
-    ck.ob("R4", lines_if, not other_nl, "kitty LINES: the newline-bearing fragment is also written outside the counted loop", stmt="kitty LINES: no extra newline fragment")
-    ret_i = next((s for s in walk_local(lines_if) if isinstance(s, ast.Return)), None)
-    last_w = [s for s in walk_local(lines_if) if isinstance(s, ast.Expr) and isinstance(s.value, ast.Call) and norm(s.value.func) == "buffer.write" and s.lineno < (ret_i.lineno if ret_i else 0)]
-    ck.ob("R4", lines_if, bool(last_w) and norm(max(last_w, key=lambda s: s.lineno)) == f"buffer.write({F})", "kitty LINES: the output must end with `fill` (no trailing newline)", stmt="kitty LINES: ends with fill")
-    jn = next((n for n in body_walk(kr) if isinstance(n, ast.Tuple) and any(norm(e).startswith(FN) for e in n.elts)), None)
-    okw = jn is not None and match_expr(f"{FN} * ({rh} - 1)", jn.elts[-2]) is not None and norm(jn.elts[-1]) == F
-    ck.ob("R4", enclosing_stmt(jn) if jn is not None else kr, okw, f"kitty WHOLE: `{FN} * ({rh} - 1)` then `{F}`; found {[norm(e) for e in jn.elts[-2:]] if jn is not None else None}", stmt="kitty WHOLE: r_height - 1 newlines, ends with fill")
+    rw, rh, kcases = shape_cases(kr, "kitty")
+    for i, r_ in enumerate(sorted({id(r): r for r, _, _ in kcases}.values(), key=lambda r: r.lineno)):
+        ordinal[id(r_)] = i + 1
+    for ret, f, t in kcases:
+        common_line_rules("kitty", ret, f, t, rh)
+        by = {a_.uid: a_ for a_ in emit.atoms(t)}
+        pre, last = emit.predecessors(t)
+        tag = f"[{show_case(f)}] @return#{ordinal[id(ret)]}"
+        bad_nl = [(by[u], p_) for u in by if emit.is_nl(by[u]) for p_ in pre.get(u, ()) if p_ == "START" or not is_fmt(by[p_], "CURSOR_FORWARD", rw)]
+        unk = [x for x in bad_nl if x[1] != "START" and hand_made(by[x[1]])]
+        ck.expect(not unk, f"kitty: a newline is preceded by a hand-made control sequence ({unk[:1]}): not analysable")
+        ck.ob("R4", ret, not bad_nl or bool(unk),
+              f"kitty places images with C=1 (the cursor does not move), so every line must end with an explicit CURSOR_FORWARD % {rw} before the newline; "
+              f"here a newline can directly follow `{by[bad_nl[0][1]] if bad_nl and bad_nl[0][1] != 'START' else 'the start of the output'}` {tag}", stmt=f"kitty: every newline preceded by CUF {rw} {tag}")
+        bad_last = [by[u] for u in last if not is_fmt(by[u], "CURSOR_FORWARD", rw)]
+        ck.ob("R4", ret, not bad_last, f"kitty: the output must end with CURSOR_FORWARD % {rw} (cursor at the right edge of the last line, no trailing newline); it can end with `{bad_last[:1]}` {tag}",
+              stmt=f"kitty: ends with CUF {rw} {tag}")
+        ech = [a_ for a_ in by.values() if isinstance(a_, emit.Fmt) and a_.tmpl == "ERASE_CHARS"]
+        if f.get("mix") is True:
+            ck.ob("R4", ret, not ech, f"kitty: with mix=True nothing may be erased under the image; found {ech[:1]} {tag}", stmt=f"kitty: no erase when mixing {tag}")
+        elif f.get("mix") is False:
+            cufs = [u for u, a_ in by.items() if is_fmt(a_, "CURSOR_FORWARD", rw)]
+            bad = [u for u in cufs if any(p_ == "START" or not is_fmt(by[p_], "ERASE_CHARS", rw) for p_ in pre.get(u, ()))]
+            ck.ob("R4", ret, bool(cufs) and not bad, f"kitty: without mix every line's cells must be erased (ERASE_CHARS % {rw}) right before the CURSOR_FORWARD {tag}", stmt=f"kitty: ECH {rw} before every CUF {tag}")
+        else:
+            ck.expect(False, f"kitty: the `mix` parameter does not appear as a condition of the output shape {tag}")
+    ck.expect(len(kcases) >= 8, f"kitty: expected >= 8 (return, case) pairs, found {len(kcases)}")
     cdc = m.get(KT, "ControlData")
     cdef = next((norm(s.value) for s in cdc.body if isinstance(s, ast.AnnAssign) and norm(s.target) == "C"), None)
     ck.ob("R4", cdc, cdef == "C.STAY", "kitty: the cursor policy must stay C=1 (the renderer moves the cursor itself)", stmt="kitty: C defaults to STAY")
     # -- iterm2
-    irs = find_stmts("$$rw, $$rh = self.rendered_size", body_walk(ir))
-    ck.need(len(irs) == 1, "iterm2: r_width, r_height = self.rendered_size not found")
-    rw, rh = norm(irs[0][1]["rw"]), norm(irs[0][1]["rh"])
-    cr = find_stmts(f"cursor_right = CURSOR_FORWARD % {rw}", body_walk(ir))
-    cu = find_stmts("cursor_up = $e", body_walk(ir))
-    ck.ob("R4", ir, len(cr) == 1, f"iterm2: cursor_right must be CURSOR_FORWARD % {rw}", stmt="iterm2: cursor_right")
-    ck.ob("R4", cu[0][0] if cu else ir, len(cu) == 1 and match_expr(f"CURSOR_UP % ({rh} - 1) if {rh} > 1 else ''", cu[0][1]["e"]) is not None,
-          f"iterm2: cursor_up must be `CURSOR_UP % ({rh} - 1) if {rh} > 1 else ''`; found `{norm(cu[0][1]['e']) if cu else None}`", stmt="iterm2: cursor_up")
-    ctl = [n for n in body_walk(ir) if isinstance(n, ast.JoinedStr) and "preserveAspectRatio" in norm(n)]
-    ck.expect(len(ctl) == 3, f"iterm2: expected 3 control-data strings, found {len(ctl)}")
-    for j in ctl:
-        ck.ob("R4", enclosing_stmt(j), "{';doNotMoveCursor=1' * is_on_konsole}" in norm(j),
-              "iterm2: on konsole the renderer advances the cursor itself (CUF/newlines after the image), so the command must carry doNotMoveCursor=1 under the same condition; "
-              f"found `{norm(j)[:100]}`", stmt="iterm2: doNotMoveCursor=1 iff is_on_konsole")
-    tups = [n for n in body_walk(ir) if isinstance(n, ast.Tuple) and any(norm(e) == "ITERM2_START" for e in n.elts)]
-    for t in tups:
-        els = [norm(e) for e in t.elts]
-        want = [f"'' if is_on_konsole else f'{{erase}}{{cursor_right}}\\n' * ({rh} - 1)", "erase", "'' if is_on_konsole else cursor_up", "ITERM2_START", "control_data", None, "ST",
-                f"f'{{cursor_right}}\\n' * ({rh} - 1) if is_on_konsole else ''", "cursor_right * is_on_konsole"]
-        ok = len(els) == len(want) and all(w is None or w == e for w, e in zip(want, els))
-        ck.ob("R4", enclosing_stmt(t), ok,
-              f"iterm2 WHOLE/ANIM choreography must be: [pre-advance h-1 lines unless konsole] erase [cursor_up unless konsole] START control payload ST [CUF+newline h-1 times on konsole] [CUF on konsole]; found {els}",
-              stmt="iterm2 WHOLE/ANIM: cursor choreography")
-    lp = next((n for n in body_walk(ir) if isinstance(n, ast.For) and rh in norm(n.iter)), None)
-    okl = lp is not None and match_expr(f"range(1, {rh} + 1)", lp.iter) is not None
-    lv = norm(lp.target) if lp is not None else "line"
-    nl = [s for s in (walk_local(lp) if lp is not None else []) if isinstance(s, ast.Expr) and isinstance(s.value, ast.Call) and norm(s.value.func) == "buffer.write" and "\\n" in norm(s.value.args[0])]
-    lp_conds = conds(lp) if lp is not None else set()
-    ck.ob("R4", lp or ir, okl and len(nl) == 1 and norm(nl[0].value.args[0]) == "'\\n'" and (conds(nl[0]) - lp_conds) == {f"{lv} < {rh}"},
-          f"iterm2 LINES: a newline after every line but the last (written under `{lv} < {rh}` only); found under {sorted(conds(nl[0]) - lp_conds) if nl else None}", stmt="iterm2 LINES: r_height - 1 newlines")
-    cuf = [s for s in (walk_local(lp) if lp is not None else []) if isinstance(s, ast.Expr) and norm(s.value) == "buffer.write(cursor_right)"]
-    ck.ob("R4", lp or ir, len(cuf) == 1 and bool(nl) and (conds(cuf[0]) - lp_conds) == {"is_on_konsole"} and cuf[0].lineno < nl[0].lineno,
-          "iterm2 LINES: on konsole (and only there) each line must be followed by CUF rendered_width before the newline", stmt="iterm2 LINES: CUF on konsole before newline")
+    rw, rh, icases = shape_cases(ir, "iterm2")
+    for i, r_ in enumerate(sorted({id(r): r for r, _, _ in icases}.values(), key=lambda r: r.lineno)):
+        ordinal[id(r_)] = i + 1
+    kon = "self._TERM == 'konsole'"
+    wez = "self._TERM == 'wezterm'"
+    n_checked = 0
+    for ret, f, t in icases:
+        if f.get(kon) and f.get(wez):
+            continue   # infeasible: one terminal name
+        tag = f"[{show_case({k: v for k, v in f.items() if k in (kon, wez, 'mix', f'{rh} > 1') or 'LINES' in k})}] @return#{ordinal[id(ret)]}"
+        ck.expect(kon in f, f"iterm2: `{kon}` is not a condition of the output shape {tag}")
+        if kon not in f:
+            continue
+        n_checked += 1
+        common_line_rules("iterm2", ret, f, t, rh)
+        by = {a_.uid: a_ for a_ in emit.atoms(t)}
+        pre, last = emit.predecessors(t)
+        ck.ob("R4", ret, not any(emit.is_nl(by[u]) for u in last), f"iterm2: the output can end with a newline {tag}", stmt=f"iterm2: no trailing newline {tag}")
+        dnm = [a_ for a_ in by.values() if isinstance(a_, emit.Lit) and "doNotMoveCursor=1" in a_.text]
+        starts = [a_ for a_ in by.values() if getattr(a_, "name", None) == "ITERM2_START"]
+        ck.expect(bool(starts), f"iterm2: no ITERM2_START in the output shape {tag}")
+        if f[kon]:
+            ck.ob("R4", ret, len(dnm) == len(starts) and bool(dnm), "iterm2: on konsole the renderer advances the cursor itself (CUF/newlines after the image), so every image command must carry doNotMoveCursor=1 "
+                  f"{tag}", stmt=f"iterm2: doNotMoveCursor=1 on konsole {tag}")
+            bad_nl = [p_ for u in by if emit.is_nl(by[u]) for p_ in pre.get(u, ()) if p_ == "START" or not is_fmt(by[p_], "CURSOR_FORWARD", rw)]
+            ck.ob("R4", ret, not bad_nl, f"iterm2: on konsole every line must be followed by CURSOR_FORWARD % {rw} before the newline {tag}", stmt=f"iterm2: konsole: CUF {rw} before every newline {tag}")
+            bad_last = [by[u] for u in last if not is_fmt(by[u], "CURSOR_FORWARD", rw)]
+            ck.ob("R4", ret, not bad_last, f"iterm2: on konsole the output must end with CURSOR_FORWARD % {rw}; it can end with {bad_last[:1]} {tag}", stmt=f"iterm2: konsole: ends with CUF {rw} {tag}")
+        else:
+            ck.ob("R4", ret, not dnm, f"iterm2: doNotMoveCursor=1 must only be sent to konsole (elsewhere the terminal itself moves the cursor past the image) {tag}", stmt=f"iterm2: no doNotMoveCursor off konsole {tag}")
+            bad_last = [by[u] for u in last if getattr(by[u], "name", None) != "ST"]
+            ck.ob("R4", ret, not bad_last, f"iterm2: off konsole the output must end with the image command's ST (the terminal leaves the cursor after the image); it can end with {bad_last[:1]} {tag}",
+                  stmt=f"iterm2: ends with ST off konsole {tag}")
+            # WHOLE/ANIM: the lines advanced before the image must be taken back by exactly one CURSOR_UP of the same amount
+            if isinstance(t, emit.Seq) and not any("LINES" in k and v for k, v in f.items()):
+                idx = next((i for i, it in enumerate(t.items) if getattr(it, "name", None) == "ITERM2_START"), None)
+                ck.expect(idx is not None, f"iterm2: ITERM2_START is not a top-level fragment of the WHOLE/ANIM shape {tag}")
+                if idx is not None:
+                    prefix = emit.Seq(t.items[:idx])
+                    c = emit.count(prefix, emit.is_nl)
+                    cuu = [a_ for a_ in emit.atoms(prefix) if isinstance(a_, emit.Fmt) and a_.tmpl == "CURSOR_UP"]
+                    gt1 = f.get(f"{rh} > 1")
+                    ck.expect(c is not None and gt1 is not None, f"iterm2: pre-advance newline count / `{rh} > 1` case not determined {tag}")
+                    if c is not None and gt1 is not None:
+                        if gt1:
+                            okc = len(cuu) == 1 and _poly_eq(affine, cuu[0].args, c)
+                            ck.ob("R4", ret, okc, f"iterm2: {affine.show(c)} lines are advanced before the image, so exactly one CURSOR_UP % ({affine.show(c)}) must bring the cursor back to the first line; "
+                                  f"found {cuu} {tag}", stmt=f"iterm2: CUU amount == lines advanced {tag}")
+                        else:
+                            ck.ob("R4", ret, not cuu, f"iterm2: for a one-line image no CURSOR_UP may be emitted (`CSI 0 A` moves up by one); found {cuu} {tag}", stmt=f"iterm2: no CUU for one line {tag}")
+                    ech = [a_ for a_ in by.values() if isinstance(a_, emit.Fmt) and a_.tmpl == "ERASE_CHARS"]
+                    nls = [u for u in by if emit.is_nl(by[u])]
+                    bad_nl = [p_ for u in nls for p_ in pre.get(u, ()) if p_ == "START" or not is_fmt(by[p_], "CURSOR_FORWARD", rw)]
+                    ck.ob("R4", ret, not bad_nl, f"iterm2: each pre-advanced line must be skipped with CURSOR_FORWARD % {rw} before its newline {tag}", stmt=f"iterm2: CUF {rw} before every pre-advance newline {tag}")
+        ech = [a_ for a_ in by.values() if isinstance(a_, emit.Fmt) and a_.tmpl == "ERASE_CHARS"]
+        if f.get("mix") is True or f.get(wez) is False:
+            ck.ob("R4", ret, not ech, f"iterm2: cells are erased only on wezterm and only when not mixing; found {ech[:1]} {tag}", stmt=f"iterm2: no erase unless wezterm and not mix {tag}")
+        elif f.get("mix") is False and f.get(wez) is True:
+            ck.ob("R4", ret, bool(ech) and all(norm(a_.args) == rw for a_ in ech), f"iterm2: on wezterm without mix the cells under the image must be erased (ERASE_CHARS % {rw}) {tag}", stmt=f"iterm2: erase on wezterm without mix {tag}")
+    ck.expect(n_checked >= 12, f"iterm2: expected >= 12 feasible (return, case) pairs, found {n_checked}")
     # -- block
     br = m.get(BL, "BlockImage._render_image")
     eol = find_stmts("end_of_line = SGR_DEFAULT + '\\n'", body_walk(br))
@@ -220,9 +299,6 @@ def run(ck, m):
     ck.ob("R4", br, bool(after) and norm(after[0]) == "buf_write(SGR_DEFAULT)", "block: the output must end with SGR_DEFAULT (attributes reset after the last line)", stmt="block: final SGR_DEFAULT")
     nl_consts = [n for n in body_walk(br) if isinstance(n, ast.Constant) and isinstance(n.value, str) and "\n" in n.value and not isinstance(n._p, ast.Expr)]
     ck.ob("R4", br, len(nl_consts) == 1, f"block: newline appears in {len(nl_consts)} literals; only end_of_line may carry one", stmt="block: single newline-bearing fragment")
-    for fn, nm, allowed in ((kr, "kitty", 1), (ir, "iterm2", 5)):
-        cnt = len([n for n in body_walk(fn) if isinstance(n, ast.Constant) and isinstance(n.value, str) and "\n" in n.value and not isinstance(n._p, ast.Expr)])
-        ck.ob("R4", fn, cnt == allowed, f"{nm}: {cnt} newline-bearing literals, {allowed} recognised by the idioms above; a new one is outside the analysis", stmt=f"{nm}: newline-bearing fragments all recognised")
 
     from rules.c03 import rule_chunk_protocol
     rule_chunk_protocol(ck, m, "R5")
